@@ -9,7 +9,7 @@ use serde::{Deserialize, Serialize};
 pub const INFO: PropInfo = PropInfo {
     id: "C18",
     level: "exploration",
-    rule: "cases = scripts of 3-10 items mixing plain probes, alias definitions used on later lines / on the same line, unalias, `read` consuming the following line(s) as data, multi-line compound commands, here-documents, function definitions, line continuations, eval of multi-line text, a sourced multi-line file, `pos` probes, comments/blank lines, and optionally a syntax error planted at a generated item; feeding mode in {-c string, script file, stdin = regular file, stdin = pipe written by a helper process in generated chunk sizes under a generated schedule}. Oracle: reference line-at-a-time interpreter => exact probe trace (ids, $?, values set by read), here-document data, final status class; identical across feeding modes and chunkings; data lines taken by `read` are not executed and the line after them is; with a syntax error every earlier command has run, none after, status non-zero; for seekable stdin the offset of fd 0 observed by `pos` equals the end of the line containing it. Non-trivial = the script has a read followed by data, or an alias defined and used on consecutive lines, or a syntax error with >=1 command before it, or runs under pipe mode with >1 chunk; distinct by serialised case.",
+    rule: "cases = scripts of 3-10 items mixing plain probes, alias definitions used on later lines / on the same line, unalias, `read` consuming the following line(s) as data, multi-line compound commands, here-documents, function definitions, line continuations, eval of multi-line text, a sourced multi-line file, `pos` probes, comments/blank lines, comments holding arbitrary bytes (valid multi-byte characters, stray lead/continuation bytes, truncated sequences just before the newline), and optionally a syntax error planted at a generated item; feeding mode in {-c string, script file, stdin = regular file, stdin = pipe written by a helper process in generated chunk sizes under a generated schedule}. Oracle: reference line-at-a-time interpreter => exact probe trace (ids, $?, values set by read), here-document data, final status class; identical across feeding modes and chunkings; data lines taken by `read` are not executed and the line after them is; with a syntax error every earlier command has run, none after, status non-zero; for seekable stdin the offset of fd 0 observed by `pos` equals the end of the line containing it; fd 0 is in blocking mode whenever a command runs, also when the pipe was inherited with O_NONBLOCK. Non-trivial = the script has a read followed by data, or an alias defined and used on consecutive lines, or a syntax error with >=1 command before it, or runs under pipe mode with >1 chunk; distinct by serialised case.",
     assumptions: &[
         "a syntax error is planted only on a line of its own (POSIX parses whole lines; what runs from the same line is unspecified)",
         "alias definitions appear only at top level (inside a compound command they cannot affect that command, which is already parsed)",
@@ -49,6 +49,32 @@ pub enum Item {
     For,
     /// `st N`
     St(u8),
+    /// a comment holding arbitrary bytes (valid multi-byte characters, stray lead or continuation
+    /// bytes, truncated sequences), on a line of its own or after a `mark`, `pos` or `read`; the bytes are fed
+    /// verbatim in the file and stdin modes and as `?` in the `-c` string
+    /// attach: 0 = line of its own, 1 = after `mark N`, 2 = after `pos TAG`, 3 = after `read rA`
+    /// (stdin modes; followed by a data line)
+    RawComment { bytes: Vec<u8>, attach: u8 },
+}
+
+/// Raw byte b >= 0x80 is carried through the script text as the private-use character U+E000+b.
+fn raw_char(b: u8) -> char {
+    if b < 0x80 { b as char } else { char::from_u32(0xE000 + b as u32).unwrap() }
+}
+
+/// The bytes actually fed to the shell for `text`.
+fn fed_bytes(text: &str, raw: bool) -> Vec<u8> {
+    let mut out = Vec::with_capacity(text.len());
+    for ch in text.chars() {
+        let u = ch as u32;
+        if (0xE080..=0xE0FF).contains(&u) {
+            out.push(if raw { (u - 0xE000) as u8 } else { b'?' });
+        } else {
+            let mut buf = [0u8; 4];
+            out.extend_from_slice(ch.encode_utf8(&mut buf).as_bytes());
+        }
+    }
+    out
 }
 
 #[derive(Clone, Copy, Debug, PartialEq, Eq, Hash, Serialize, Deserialize)]
@@ -77,6 +103,11 @@ pub struct InputCase {
     /// chunk sizes for pipe mode (cycled)
     pub chunks: Vec<u16>,
     pub sched: Option<u64>,
+    /// pipe mode: the shell inherits the read end with O_NONBLOCK set (POSIX sh: a FIFO or
+    /// terminal on standard input is put into blocking mode, since commands sharing that input
+    /// would otherwise see EAGAIN instead of the data that follows)
+    #[serde(default)]
+    pub nonblock: bool,
 }
 
 struct Built {
@@ -322,13 +353,49 @@ fn build(c: &InputCase, stdin_mode: bool) -> Built {
                 }
             }
             Item::Comment => text.push_str("# just a comment; mark 8000\n"),
+            Item::RawComment { bytes, attach } => {
+                let tail: String = bytes.iter().filter(|b| !matches!(**b, b'\n' | 0 | b'\\' | b'\r')).map(|b| raw_char(*b)).collect();
+                let attach = if !stdin_mode && *attach % 4 == 3 { 1 } else { *attach % 4 };
+                match attach {
+                    1 => {
+                        let id = next_mark;
+                        text.push_str(&format!("mark {id} # {tail}\n"));
+                        if live {
+                            mark(&mut trace, &mut status, &mut next_mark, vec![]);
+                        } else {
+                            next_mark += 1;
+                        }
+                    }
+                    2 => {
+                        let tag = format!("p{i}");
+                        text.push_str(&format!("pos {tag} # {tail}\n"));
+                        if live {
+                            let off = if stdin_mode { fed_bytes(&text, true).len().to_string() } else { "*".to_string() };
+                            trace.push((vec!["pos".into(), off, tag, "nb=0".into()], status));
+                        }
+                    }
+                    3 => {
+                        text.push_str(&format!("read rA # {tail}\ndata{i}\n"));
+                        if live {
+                            has_read = true;
+                            classes.push("read-consumes-next-line");
+                            vars.insert("rA".into(), format!("data{i}"));
+                            status = Sym::Known(0);
+                        }
+                    }
+                    _ => text.push_str(&format!("# {tail}\n")),
+                }
+                if live && bytes.iter().any(|b| *b >= 0x80) {
+                    classes.push("non-ascii-bytes-in-comment");
+                }
+            }
             Item::Blank => text.push_str("\n"),
             Item::Pos => {
                 let tag = format!("p{i}");
                 text.push_str(&format!("pos {tag}\n"));
                 if live {
-                    let off = if stdin_mode { text.len().to_string() } else { "*".to_string() };
-                    trace.push((vec!["pos".into(), off, tag], status));
+                    let off = if stdin_mode { fed_bytes(&text, true).len().to_string() } else { "*".to_string() };
+                    trace.push((vec!["pos".into(), off, tag, "nb=0".into()], status));
                     // pos leaves $? alone
                 }
             }
@@ -370,23 +437,24 @@ fn build(c: &InputCase, stdin_mode: bool) -> Built {
 
 fn run_mode(c: &InputCase, mode: Mode, b: &Built) -> Result<(), String> {
     let mut s = match mode {
-        Mode::CString => vsys::Setup::script(&b.text),
+        Mode::CString => vsys::Setup::script(&String::from_utf8(fed_bytes(&b.text, false)).unwrap()),
         Mode::File => {
             let mut s = vsys::Setup::script("");
             s.argv = vec!["yash".into(), "/work/script.sh".into()];
-            s.files.push(("script.sh".into(), FileSpec::Regular { content: b.text.clone(), mode: 0o644, exec: false }));
+            s.files.push(("script.sh".into(), FileSpec::Bytes { content: fed_bytes(&b.text, true), mode: 0o644 }));
             s
         }
         Mode::StdinFile => {
             let mut s = vsys::Setup::script("");
             s.argv = vec!["yash".into(), "-s".into()];
-            s.stdin = Some(b.text.clone().into_bytes());
+            s.stdin = Some(fed_bytes(&b.text, true));
             s
         }
         Mode::StdinPipe => {
             let mut s = vsys::Setup::script("");
             s.argv = vec!["yash".into()];
-            let bytes = b.text.as_bytes();
+            let fed = fed_bytes(&b.text, true);
+            let bytes = fed.as_slice();
             let mut chunks = vec![];
             let mut i = 0;
             let mut k = 0;
@@ -398,6 +466,7 @@ fn run_mode(c: &InputCase, mode: Mode, b: &Built) -> Result<(), String> {
                 k += 1;
             }
             s.stdin_pipe = Some(chunks);
+            s.stdin_nonblock = c.nonblock;
             if let Some(seed) = c.sched {
                 s.chooser = Chooser::Seeded(seed);
                 s.preempt = true;
@@ -458,13 +527,13 @@ fn check_input(c: &InputCase) -> Outcome {
     for cl in &stdin.classes {
         out = out.class(cl);
     }
-    out.class_if(has_read_item, "has-read").class_if(c.sched.is_some(), "pipe-with-seeded-schedule").class_if(c.chunks.iter().any(|c| *c == 1), "one-byte-chunks")
+    out.class_if(has_read_item, "has-read").class_if(c.sched.is_some(), "pipe-with-seeded-schedule").class_if(c.chunks.iter().any(|c| *c == 1), "one-byte-chunks").class_if(c.nonblock, "pipe-inherited-non-blocking")
 }
 
 pub static INPUT: Driver<InputCase> = Driver::new("C18", "input", check_input);
 
 fn arb_item() -> impl Strategy<Value = Item> {
-    let data = prop::collection::vec(prop::sample::select(vec!['a', 'b', ' ', 'm', 'k', '1', ';', '#']), 0..8)
+    let data = prop::collection::vec(prop::sample::select(vec!['a', 'b', ' ', 'm', 'k', '1', ';', '#', '\u{e9}', '\u{20ac}']), 0..8)
         .prop_map(|v| v.into_iter().collect::<String>());
     prop_oneof![
         6 => Just(Item::Mark),
@@ -484,6 +553,8 @@ fn arb_item() -> impl Strategy<Value = Item> {
         1 => Just(Item::Eval),
         1 => Just(Item::Source),
         1 => Just(Item::Comment),
+        3 => (prop::collection::vec(prop::sample::select(vec![0xC3u8, 0xA9, 0xE9, 0xF0, 0x9F, 0x98, 0x80, 0xE2, 0x82, 0xAC, 0xFF, 0xC2, b'a', b' ', b'm']), 1..7), 0u8..4)
+            .prop_map(|(bytes, attach)| Item::RawComment { bytes, attach }),
         1 => Just(Item::Blank),
         3 => Just(Item::Pos),
     ]
@@ -502,8 +573,9 @@ fn arb_case() -> impl Strategy<Value = InputCase> {
             3 => prop::collection::vec(1u16..40, 1..5),
         ],
         prop::option::weighted(0.7, any::<u64>()),
+        any::<bool>(),
     )
-        .prop_map(|(items, error, chunks, sched)| InputCase { items, error, chunks, sched })
+        .prop_map(|(items, error, chunks, sched, nonblock)| InputCase { items, error, chunks, sched, nonblock })
 }
 
 pub fn run(ctx: &Ctx, st: &mut Stats) {
